@@ -23,6 +23,13 @@ PENDING = {
     "C20": "check designed (DESIGN.md sect. 4, engine S) but not built yet; not claimed until it runs",
 }
 TEXT = {
+    "C01": {
+        "engine": "N",
+        "design_ref": "DESIGN.md sect. 4 (C01), sect. 3.6, 3.7",
+        "technique": "deterministic simulation of the whole system: the real runner and the real reference/gRPC peers with their protocol stacks run in one process per shard over a simulated network (seeded segmentation and latency) and the testing/synctest fake clock; oracle = runner verdict, exact totals, known-failing lists; failures replayed per permutation three times",
+        "level_text": "The finite space of the property is executed: quick = every embedded suite x every (HTTP version, protocol) shard with one codec and identity + one compression rotated by the seed (about 6k permutations of the five Go-peer runs); thorough = all permutations of the five runs (12,998 server-mode + 16,580 client-mode + the three gRPC-peer runs) at two network perturbation levels, with a dry expansion proving that the shards partition each run. Timing-directed cases decide their verdict by simulated time, so the check cannot flake under load. Oracle: Run returns (true, nil), zero failed, zero could-not-run, every known-failing pattern of the gRPC peers matched and failing, reference lists empty.",
+        "level_note": "Simulated environment, real Go scheduler inside third-party stacks (GOMAXPROCS=1): replay is exact at the level of the verdict, not of a global event log. Four environment adaptations (listed in the evidence file) change how goroutines wait / read the clock, never what the code computes. The Node gRPC-Web client run is excluded (not runnable offline).",
+    },
     "C16": {
         "engine": "S",
         "design_ref": "DESIGN.md sect. 4 (C16)",
